@@ -9,11 +9,19 @@ register updates.  `lower_k` is an `f64` in the code but only ever holds a regis
 -/
 namespace PMH
 
-/-- per-item draws and the float pipeline from `x_j` to the candidate register -/
-structure SskOps (G : Type) where
-  nextE : G → Except Err (Float × G)       -- `Exp1`
+/-- per-item draws and the scalar pipeline from `x_j` to the candidate register.
+`F` is the type of the `x_j` (`f64` in the code; an ordered field in the theorems):
+* `step xpred j e = xpred + ((1/a) / (m-j)) * e`,
+* `early x L`  = the first break `log_b x > -L`,
+* `cand x`     = `max(0, min(q+1, ⌊1 - log_b x⌋))`, the candidate register. -/
+structure SskOps (F G : Type) where
+  nextE : G → Except Err (F × G)            -- `Exp1`
   nextU : G → UInt64 × G                    -- raw word for `FYshuffle::next`
   offsetOf : UInt64 → Nat → Nat
+  zero : F
+  step : F → Nat → F → F
+  early : F → Nat → Bool
+  cand : F → Nat
 
 structure SSK where
   b : Float
@@ -48,21 +56,17 @@ def f64ToI64 (x : Float) : Int :=
 
 def minReg (a : Array Nat) : Nat := a.foldl (fun mn x => if x < mn then x else mn) (a.getD 0 0)
 
-def loop {G : Type} (o : SskOps G) : Nat → SSK → Nat → Float → G → Except Err SSK
+def loop {F G : Type} (o : SskOps F G) : Nat → SSK → Nat → F → G → Except Err SSK
   | 0, s, _, _, _ => .ok s
   | fuel + 1, s, j, xpred, g =>
     if ¬ (j < s.m) then .ok s else
     match o.nextE g with
     | .error e => .error e
     | .ok (ex, g) =>
-      let inva : Float := 1.0 / s.a
-      let xj := xpred + (inva / (s.m - j).toFloat) * ex
-      let lb := Float.log xj / s.lnb
-      if lb > -(s.lowerK.toFloat) then .ok s                    -- first break
+      let xj := o.step xpred j ex
+      if o.early xj s.lowerK then .ok s                           -- first break (`lb_xj > -lower_k`)
       else
-        let iq1 : Int := (s.q : Int) + 1
-        let z : Int := min iq1 (f64ToI64 (Float.floor (1.0 - lb)))
-        let k : Nat := (max 0 z).toNat
+        let k : Nat := o.cand xj
         if k ≤ s.lowerK then .ok s                                -- second break (`k as f64 <= lower_k`)
         else
           let (u, g) := o.nextU g
@@ -86,8 +90,20 @@ def loop {G : Type} (o : SskOps G) : Nat → SSK → Nat → Float → G → Exc
               else loop o fuel s (j + 1) xj g
 
 /-- `sketch(item)` with the item's generator -/
-def sketch {G : Type} (o : SskOps G) (s : SSK) (g : G) : Except Err SSK :=
-  loop o (s.m + 1) { s with fy := s.fy.reset } 0 0.0 g
+def sketch {F G : Type} (o : SskOps F G) (s : SSK) (g : G) : Except Err SSK :=
+  loop o (s.m + 1) { s with fy := s.fy.reset } 0 o.zero g
+
+/-- the `f64` pipeline of the code for parameters `(m, a, q, lnb)` -/
+def floatOps {G : Type} (nextE : G → Except Err (Float × G)) (nextU : G → UInt64 × G) (offsetOf : UInt64 → Nat → Nat)
+    (m : Nat) (a : Float) (q : Nat) (lnb : Float) : SskOps Float G :=
+  { nextE := nextE, nextU := nextU, offsetOf := offsetOf, zero := 0.0
+    step := fun xpred j ex => xpred + ((1.0 / a) / (m - j).toFloat) * ex
+    early := fun xj L => (Float.log xj / lnb) > -(L.toFloat)
+    cand := fun xj =>
+      let lb := Float.log xj / lnb
+      let iq1 : Int := (q : Int) + 1
+      let z : Int := min iq1 (f64ToI64 (Float.floor (1.0 - lb)))
+      (max 0 z).toNat }
 
 /-- `merge(other)`: refused (state unchanged) on parameter mismatch; `eps = f64::EPSILON` -/
 def merge (s other : SSK) : Except Err SSK :=
